@@ -330,7 +330,9 @@ func (p *SimIdP) process(tr *TokenReq, mode Answer) (int, string) {
 		}
 		resp["id_token"] = tok
 		tr.IDToken = tok
-		p.Issued[tok] = &Issued{Kind: "id", Login: login.ID, Exp: exp, Honest: mode.Evil == "", Seq: p.seq}
+		if _, seen := p.Issued[tok]; !seen {
+			p.Issued[tok] = &Issued{Kind: "id", Login: login.ID, Exp: exp, Honest: mode.Evil == "", Seq: p.seq}
+		}
 	}
 	if !mode.NoAccess {
 		at := fmt.Sprintf("AT-%d-%04d-sekret", login.ID, p.next())
